@@ -500,7 +500,9 @@ Fixpoint dyn_node (n : node) : Prop :=
     | KScript _ => True
     | KNewLine _ => True
     | KDoctype _ => True
-    | KComment o _ => t_lit o <> [] /\ bytes_ok (t_lit o)
+    | KComment o _ => (t_lit o <> [] /\ bytes_ok (t_lit o)) \/ (t_lit o = [] /\ kids_ok ch /\ all ch)
+    | KFilter FJavaScript _ _ | KFilter FCss _ _ => kids_ok ch /\ all ch
+    | KFilter FText o _ => (t_lit o = lit "escaped" /\ kids_ok ch /\ all ch) \/ (t_lit o = lit "plain" /\ Forall raw_child ch)
     | KSilent o _ _ =>
       match ch with
       | [] => any_prefix c_elseStatements (t_lit o) = false /\ has_prefix (lit "}") (t_lit o) = false       (* a Go line *)
@@ -538,7 +540,14 @@ Fixpoint segs_of (nc fl : bool) (n : node) : list seg :=
     | KScript o => [SDyn o]
     | KNewLine _ => [SLit [10]]
     | KDoctype _ => [SLit (lit "<!DOCTYPE html>")]
-    | KComment o _ => [SLit (lit "<!--" ++ html_escape (t_lit o) ++ lit "-->" ++ [10])]
+    | KComment o _ =>
+      match t_lit o with
+      | [] => [SLit (lit "<!--")] ++ kids false ch ++ [SLit (lit "-->" ++ [10])]
+      | text => [SLit (lit "<!--" ++ html_escape text ++ lit "-->" ++ [10])]
+      end
+    | KFilter FJavaScript _ _ => [SLit (lit "<script>" ++ [10])] ++ kids false ch ++ [SLit (lit "</script>")]
+    | KFilter FCss _ _ => [SLit (lit "<style>" ++ [10])] ++ kids false ch ++ [SLit (lit "</style>")]
+    | KFilter FText o _ => if beqb (t_lit o) (lit "plain") then List.concat (map raw_segs ch) else kids false ch
     | KSilent o _ _ =>
       let stmt := go_trim_space (t_lit o) in
       let body := kids false ch in
@@ -989,8 +998,18 @@ Proof.
   - (* newline *)
     exists true. cbn [fst snd]. split; [apply chunk_run; [exact H|exact reads_as_escaped_newline]|reflexivity].
   - (* comment *)
-    destruct Hs as [Hne Hok]. destruct (t_lit origin) as [|c0 c] eqn:El; [congruence|]. cbn [fst snd].
-    destruct (chunk_comment_ok (c0 :: c) Hok) as [Rc _]. exists true. split; [apply chunk_run; assumption|reflexivity].
+    destruct Hs as [[Hne Hok]|(Hnil & Hko & Hch)].
+    + destruct (t_lit origin) as [|c0 c] eqn:El; [congruence|]. cbn [fst snd].
+      destruct (chunk_comment_ok (c0 :: c) Hok) as [Rc _]. exists true. split; [apply chunk_run; assumption|reflexivity].
+    + (* a comment with nested content *)
+      rewrite Hnil. cbn [fst snd]. apply dyn_all_eq in Hch.
+      assert (Ro : reads_as (lit "<!--") (lit "<!--")) by (apply reads_as_plain; repeat constructor; cbn; try lia; discriminate).
+      assert (Rc : reads_as (lit "-->\n") (lit "-->" ++ [10])).
+      { change (lit "-->\n") with (lit "-->" ++ [92; 110]). apply reads_as_app; [apply reads_as_plain; repeat constructor; cbn; try lia; discriminate|exact reads_as_escaped_newline]. }
+      pose proof (chunk_run ind m _ _ st H Ro) as R1.
+      destruct (kids_run sm ch IH Hch Hko ind true _ (Run_ms ind R1)) as (m2 & R2).
+      pose proof (chunk_run ind m2 _ _ _ (Run_ms ind R2) Rc) as R3.
+      exists true. split; [|reflexivity]. eapply Run_trans; [exact R1|]. eapply Run_trans; [exact R2|exact R3].
   - (* text *)
     cbn [fst snd]. unfold emit_text. destruct Hs as [(Hok & Hdyn & Hpre)|Hdyn].
     + rewrite Hdyn, Hpre. pose proof H as [He Hl]. rewrite Hl. cbv zeta.
@@ -1195,6 +1214,40 @@ Proof.
     assert (Dc : denotes ind false false (children_code ind) [SChildren]).
     { rewrite <- (app_nil_r (children_code _)). apply d_children. constructor. }
     destruct m; [apply d_close; exact Dc|exact Dc].
+  - (* filters *)
+    assert (Rnl : forall p, Forall plain p -> reads_as (p ++ [92; 110]) (p ++ [10])).
+    { intros p Hp. apply reads_as_app; [apply reads_as_plain; exact Hp|exact reads_as_escaped_newline]. }
+    destruct fk; cbn [fst snd].
+    + (* :javascript *)
+      destruct Hs as [Hko Hch]. apply dyn_all_eq in Hch.
+      assert (Ro : reads_as (lit "<script>\n") (lit "<script>" ++ [10])).
+      { change (lit "<script>\n") with (lit "<script>" ++ [92; 110]). apply Rnl. repeat constructor; cbn; try lia; discriminate. }
+      assert (Rc : reads_as (lit "</script>") (lit "</script>")) by (apply reads_as_plain; repeat constructor; cbn; try lia; discriminate).
+      pose proof (chunk_run ind m _ _ st H Ro) as R1.
+      destruct (kids_run sm ch IH Hch Hko ind true _ (Run_ms ind R1)) as (m2 & R2).
+      pose proof (chunk_run ind m2 _ _ _ (Run_ms ind R2) Rc) as R3.
+      exists true. split; [|reflexivity]. eapply Run_trans; [exact R1|]. eapply Run_trans; [exact R2|exact R3].
+    + (* :css *)
+      destruct Hs as [Hko Hch]. apply dyn_all_eq in Hch.
+      assert (Ro : reads_as (lit "<style>\n") (lit "<style>" ++ [10])).
+      { change (lit "<style>\n") with (lit "<style>" ++ [92; 110]). apply Rnl. repeat constructor; cbn; try lia; discriminate. }
+      assert (Rc : reads_as (lit "</style>") (lit "</style>")) by (apply reads_as_plain; repeat constructor; cbn; try lia; discriminate).
+      pose proof (chunk_run ind m _ _ st H Ro) as R1.
+      destruct (kids_run sm ch IH Hch Hko ind true _ (Run_ms ind R1)) as (m2 & R2).
+      pose proof (chunk_run ind m2 _ _ _ (Run_ms ind R2) Rc) as R3.
+      exists true. split; [|reflexivity]. eapply Run_trans; [exact R1|]. eapply Run_trans; [exact R2|exact R3].
+    + destruct Hs as [(Hl & Hko & Hch)|(Hl & Hraw)]; rewrite Hl.
+      * (* :escaped *)
+        apply dyn_all_eq in Hch. cbn [beqb orb]. change (beqb (lit "escaped") (lit "plain")) with false. change (beqb (lit "escaped") (lit "preserve")) with false. cbn [orb].
+        destruct (kids_run sm ch IH Hch Hko ind m st H) as (m2 & R2). exists m2. split; [exact R2|reflexivity].
+      * (* :plain *)
+        change (beqb (lit "plain") (lit "plain")) with true. change (beqb (lit "plain") (lit "preserve")) with false. cbn [orb].
+        assert (Hu : MSu ind m (set_unesc true st)).
+        { destruct H as [He Hl0]. split; [exact He|]. unfold set_unesc. cbn [set_local snd]. rewrite Hl0. destruct m; reflexivity. }
+        destruct (raw_list_run sm ind ch Hraw false m _ Hu) as (m' & [E5 L5] & code & T5 & D5).
+        exists m'. split; [|reflexivity]. split.
+        -- split; [exact E5|]. unfold set_unesc at 1. cbn [set_local snd]. rewrite L5. destruct m'; reflexivity.
+        -- exists code. split; [|exact D5]. unfold set_unesc at 1. rewrite txt_set_local, T5. unfold set_unesc. rewrite txt_set_local. reflexivity.
 Qed.
 
 (** * a whole template with a body of this fragment *)
@@ -1271,6 +1324,6 @@ Proof.
     destruct (e_selfclosing d).
     + cbn. rewrite !app_nil_r, <- !app_assoc. reflexivity.
     + rewrite eval_app. destruct (only_newline ch); [|rewrite Hk]; cbn; rewrite ?app_nil_r, <- ?app_assoc; reflexivity.
-  - cbn. rewrite app_nil_r. reflexivity.
+  - destruct Hs as [Hne _]. destruct (t_lit origin) as [|c0 c]; [congruence|]. cbn. rewrite app_nil_r. reflexivity.
   - destruct Hs as (_ & Hd & _). rewrite Hd. cbn. rewrite app_nil_r. reflexivity.
 Qed.
